@@ -961,35 +961,9 @@ def execUnary (F : FloatOps) : M Ctl := do
   let tok := tokOfNat (← opnd1 1)
   let sp ← getSp
   let right ← stackGet (sp - 1)
-  match right with
-  | .nil => panic "runtime error: invalid memory address or nil pointer dereference"
-  | _ => pure ()
-  if tok == .Not then
-    stackSet (sp - 1) (.bool (← isFalsy right)); bumpIp 1; return .next
-  let bad : M Ctl := failWith (.named "TypeError" s!"invalid type for unary '{tok.str}': '{typeName right}'")
-  let r? : Option (Option V) := match tok, right with
-    | .Sub, .int x => some (some (.int (-x)))
-    | .Sub, .float x => some (some (.float (F.neg x)))
-    | .Sub, .char x => some (some (.int (BitVec.signExtend 64 (-x))))
-    | .Sub, .uint x => some (some (.uint (-x)))
-    | .Sub, .bool b => some (some (.int (if b then (-1#64) else 0#64)))
-    | .Sub, _ => some none
-    | .Xor, .int x => some (some (.int (~~~x)))
-    | .Xor, .uint x => some (some (.uint (~~~x)))
-    | .Xor, .char x => some (some (.int (~~~(BitVec.signExtend 64 x))))
-    | .Xor, .bool b => some (some (.int (if b then ~~~(1#64) else ~~~(0#64))))
-    | .Xor, _ => some none
-    | .Add, .int x => some (some (.int x))
-    | .Add, .uint x => some (some (.uint x))
-    | .Add, .float x => some (some (.float x))
-    | .Add, .char x => some (some (.char x))
-    | .Add, .bool b => some (some (.int (if b then 1#64 else 0#64)))
-    | .Add, _ => some none
-    | _, _ => none
-  match r? with
-  | none => failWith (.named "InvalidOperatorError" s!"invalid for '{tok.str}': '{typeName right}'")
-  | some none => bad
-  | some (some v) => stackSet (sp - 1) v; bumpIp 1; return .next
+  match (← vUnary F tok right) with
+  | .ok v => stackSet (sp - 1) v; bumpIp 1; return .next
+  | .error e => failWith e
 
 def execNoOp : M Ctl := do
   return .next
